@@ -60,6 +60,8 @@ LIB_UF = {
     "math.ceil": IntT,
     "np.interp": RealT,
     "numpy.interp": RealT,
+    "float_parses": BoolT,
+    "float_of_str": RealT,
 }
 NOOP_PREFIXES = ("opaque.", "log.", "logging.", "warnings.")
 
@@ -125,8 +127,12 @@ def call_builtin(ex, name, args, kw, st, where, env):
             return
         if isinstance(x, Sym) and x.ty is StrT:
             # parsing text: either ValueError or some number (an uninterpreted function of the text)
-            yield Raised(ExcVal("ValueError"), where), st
-            yield ex.uf_apply("float_of_str", [x], RealT), st
+            # (whether a text parses is an uninterpreted predicate of the text: the same text always behaves the same)
+            for b_, st_ in ex.fork(st, ex.uf_apply("float_parses", [x], BoolT)):
+                if b_:
+                    yield ex.uf_apply("float_of_str", [x], RealT), st_
+                else:
+                    yield Raised(ExcVal("ValueError"), where), st_
             return
         raise PyvcUnsupported("float() of non-number")
     if name == "bool":
@@ -172,6 +178,9 @@ def call_builtin(ex, name, args, kw, st, where, env):
         r = z3.Const(fresh_name("range"), z3.SeqSort(z3.IntSort()))
         i = z3.Int(fresh_name("ri"))
         n = z3.If(hi_e <= lo_e, 0, (hi_e - lo_e + st_e - 1) / st_e)
+        if not hasattr(ex, "range_info"):
+            ex.range_info = {}
+        ex.range_info[r.get_id()] = (r, lo_e, st_e, n)
         yield Sym(SeqTy(IntT), r), st.assume(z3.Length(r) == n, z3.ForAll([i], z3.Implies(z3.And(i >= 0, i < n), r[i] == lo_e + i * st_e)))
         return
     if name in ("tqdm", "tqdm.tqdm"):
